@@ -106,6 +106,8 @@ impl UnaryOp {
 pub(crate) enum Expr {
     Number(i64),
     Variable(String),
+    /// A name which the parser has seen bound by `let` or a loop: never a device output
+    LocalVariable(String),
     BinOp {
         op: BinOp,
         left: Box<Expr>,
@@ -125,7 +127,7 @@ impl Display for Expr {
     fn fmt(&self, f: &mut std::fmt::Formatter<'_>) -> std::fmt::Result {
         match self {
             Self::Number(n) => write!(f, "{n}"),
-            Self::Variable(s) => write!(f, "{s}"),
+            Self::Variable(s) | Self::LocalVariable(s) => write!(f, "{s}"),
             Self::BinOp { op, left, right } => write!(f, "({left} {op} {right})"),
             Self::UnaryOp { op, expr } => write!(f, "{op}{expr}"),
             Self::Func { name, args } => {
@@ -213,6 +215,9 @@ impl Expr {
                     Err(ExprErrorKind::UnexpectedValueForSignal(name.clone(), value).into())
                 }
             }
+            Self::LocalVariable(name) => ctx
+                .get_variable(name)
+                .ok_or_else(|| ExprErrorKind::UnassignedVariable(name.clone()).into()),
             Self::UnaryOp { op, expr } => Ok(op.eval(expr.eval(ctx)?)),
             Self::BinOp { op, left, right } => op.eval(left.eval(ctx)?, right.eval(ctx)?),
             Self::Func { name, args } => {
